@@ -76,6 +76,40 @@ def carries_user_tokens(T, toks, j, depth=0):
     ty = _strip_wrappers(tk.ty)
     if SAFE_INTERP.match(ty):
         return False
+    if tk.kind == "interp" and tk.src is not None and 1 <= tk.src <= T.b.arg_count and depth < 3 and T.b.kind in ("Fn", "AssocFn") \
+            and str(T.b.raw.get("vis", "")).startswith("Restricted"):
+        # a parameter of a private helper: what its callers pass decides (a template of the caller
+        # that interpolates nothing user-written is harmless)
+        sites = []
+        for raw in T.b.crate["bodies"]:
+            if raw["key"] == T.b.key:
+                continue
+            for blk_ in raw["blocks"]:
+                tm = blk_["term"]
+                if tm.get("k") == "call" and mir.callee_of(tm) == T.b.key:
+                    sites.append((raw, tm))
+        if sites:
+            harmless = True
+            for raw, tm in sites:
+                Tc = tpl.Templates(mir.Body(raw, T.b.crate))
+                if tk.src - 1 >= len(tm["args"]):
+                    harmless = False
+                    break
+                a_ = tm["args"][tk.src - 1]
+                if a_["k"] not in ("copy", "move"):
+                    continue
+                root = tpl.ref_root(Tc.b, a_)
+                alts = Tc.stream_alts(root) if root is not None else []
+                if not alts or not all(x > Tc.b.arg_count for x in alts):
+                    harmless = False
+                    break
+                for x in alts:
+                    tx = Tc.by_stream.get(x, [])
+                    for kk, t3 in enumerate(tx):
+                        if t3.kind in ("interp", "append") and not (t3.kind == "interp" and Tc.stream_alts(t3.src)) and carries_user_tokens(Tc, tx, kk, depth + 1):
+                            harmless = False
+            if harmless:
+                return False
     if ty == "proc_macro2::Ident" and _path_position(toks, j):
         return False
     if depth < 4:
@@ -370,6 +404,11 @@ def run(ctx):
     if f:
         preds = common.callable_args_conditions(ctx, f, r"TraitImpl::<'a>::type_params_matching$", (1, 2)) or []
         ok = len(preds) == 2 and all(p == [{"elem.skip=False"}] for p in preds)
+        if not preds:
+            # the filters applied inside the walk instead of handed to it: one over fields, one over variants
+            sf = common.skip_filters(ctx, f)
+            preds = [d for k, d in sf]
+            ok = sorted(k for k, d in sf) == ["field", "variant"] and all(d == [{"elem.skip=False"}] for k, d in sf)
         ctx.ob("C20.S.bounds-cover-trait-uses", f.key, "only skipped fields / variants are left out", ok, "filters keep an element under %s" % preds)
     # `Default` is demanded of a field type only where the documentation says so (skipped fields)
     from .C01 import default_synthesis_rules
